@@ -79,6 +79,11 @@ func (m *Module) addDataDefinitionWithoutOwning(d Definition) error {
 }
 
 func (m *Module) indexDataDefinition(def Definition) error {
+	if _, isUses := def.(*Uses); isUses {
+		// stands for the nodes of a grouping until it is expanded. the name is that of the
+		// grouping, which may well be the name of a data node next to it
+		return nil
+	}
 	if m.dataDefsIndex == nil {
 		m.dataDefsIndex = make(map[string]Definition)
 	} else if _, exists := m.dataDefsIndex[def.Ident()]; exists {
@@ -544,6 +549,11 @@ func (m *ChoiceCase) addDataDefinitionWithoutOwning(d Definition) error {
 }
 
 func (m *ChoiceCase) indexDataDefinition(def Definition) error {
+	if _, isUses := def.(*Uses); isUses {
+		// stands for the nodes of a grouping until it is expanded. the name is that of the
+		// grouping, which may well be the name of a data node next to it
+		return nil
+	}
 	if m.dataDefsIndex == nil {
 		m.dataDefsIndex = make(map[string]Definition)
 	} else if _, exists := m.dataDefsIndex[def.Ident()]; exists {
@@ -748,6 +758,11 @@ func (m *Container) addDataDefinitionWithoutOwning(d Definition) error {
 }
 
 func (m *Container) indexDataDefinition(def Definition) error {
+	if _, isUses := def.(*Uses); isUses {
+		// stands for the nodes of a grouping until it is expanded. the name is that of the
+		// grouping, which may well be the name of a data node next to it
+		return nil
+	}
 	if m.dataDefsIndex == nil {
 		m.dataDefsIndex = make(map[string]Definition)
 	} else if _, exists := m.dataDefsIndex[def.Ident()]; exists {
@@ -1044,6 +1059,11 @@ func (m *List) addDataDefinitionWithoutOwning(d Definition) error {
 }
 
 func (m *List) indexDataDefinition(def Definition) error {
+	if _, isUses := def.(*Uses); isUses {
+		// stands for the nodes of a grouping until it is expanded. the name is that of the
+		// grouping, which may well be the name of a data node next to it
+		return nil
+	}
 	if m.dataDefsIndex == nil {
 		m.dataDefsIndex = make(map[string]Definition)
 	} else if _, exists := m.dataDefsIndex[def.Ident()]; exists {
@@ -1920,6 +1940,11 @@ func (m *Grouping) addDataDefinitionWithoutOwning(d Definition) error {
 }
 
 func (m *Grouping) indexDataDefinition(def Definition) error {
+	if _, isUses := def.(*Uses); isUses {
+		// stands for the nodes of a grouping until it is expanded. the name is that of the
+		// grouping, which may well be the name of a data node next to it
+		return nil
+	}
 	if m.dataDefsIndex == nil {
 		m.dataDefsIndex = make(map[string]Definition)
 	} else if _, exists := m.dataDefsIndex[def.Ident()]; exists {
@@ -2394,6 +2419,11 @@ func (m *RpcInput) addDataDefinitionWithoutOwning(d Definition) error {
 }
 
 func (m *RpcInput) indexDataDefinition(def Definition) error {
+	if _, isUses := def.(*Uses); isUses {
+		// stands for the nodes of a grouping until it is expanded. the name is that of the
+		// grouping, which may well be the name of a data node next to it
+		return nil
+	}
 	if m.dataDefsIndex == nil {
 		m.dataDefsIndex = make(map[string]Definition)
 	} else if _, exists := m.dataDefsIndex[def.Ident()]; exists {
@@ -2572,6 +2602,11 @@ func (m *RpcOutput) addDataDefinitionWithoutOwning(d Definition) error {
 }
 
 func (m *RpcOutput) indexDataDefinition(def Definition) error {
+	if _, isUses := def.(*Uses); isUses {
+		// stands for the nodes of a grouping until it is expanded. the name is that of the
+		// grouping, which may well be the name of a data node next to it
+		return nil
+	}
 	if m.dataDefsIndex == nil {
 		m.dataDefsIndex = make(map[string]Definition)
 	} else if _, exists := m.dataDefsIndex[def.Ident()]; exists {
@@ -2870,6 +2905,11 @@ func (m *Notification) addDataDefinitionWithoutOwning(d Definition) error {
 }
 
 func (m *Notification) indexDataDefinition(def Definition) error {
+	if _, isUses := def.(*Uses); isUses {
+		// stands for the nodes of a grouping until it is expanded. the name is that of the
+		// grouping, which may well be the name of a data node next to it
+		return nil
+	}
 	if m.dataDefsIndex == nil {
 		m.dataDefsIndex = make(map[string]Definition)
 	} else if _, exists := m.dataDefsIndex[def.Ident()]; exists {
@@ -3134,6 +3174,11 @@ func (m *Augment) addDataDefinitionWithoutOwning(d Definition) error {
 }
 
 func (m *Augment) indexDataDefinition(def Definition) error {
+	if _, isUses := def.(*Uses); isUses {
+		// stands for the nodes of a grouping until it is expanded. the name is that of the
+		// grouping, which may well be the name of a data node next to it
+		return nil
+	}
 	if m.dataDefsIndex == nil {
 		m.dataDefsIndex = make(map[string]Definition)
 	} else if _, exists := m.dataDefsIndex[def.Ident()]; exists {
@@ -4105,6 +4150,11 @@ func (m *Extension) addDataDefinitionWithoutOwning(d Definition) error {
 }
 
 func (m *Extension) indexDataDefinition(def Definition) error {
+	if _, isUses := def.(*Uses); isUses {
+		// stands for the nodes of a grouping until it is expanded. the name is that of the
+		// grouping, which may well be the name of a data node next to it
+		return nil
+	}
 	if m.dataDefsIndex == nil {
 		m.dataDefsIndex = make(map[string]Definition)
 	} else if _, exists := m.dataDefsIndex[def.Ident()]; exists {
